@@ -423,7 +423,9 @@ class World:
                 return
 
 
-SPECIAL = [1.5, float('nan'), float('nan'), 2.0, float('inf'), float('-inf'), 0.0, -0.0, 1.5, 1e308, 5e-324]
+SPECIAL = [1.5, float('nan'), float('nan'), 2.0, float('inf'), float('-inf'), 0.0, -0.0, 1.5, 1e308, 5e-324,
+           # neighbours closer than the resolution of the datatype: different values all the same
+           100.0, 100.000003, 100.000006, 100.000003, 100.0, 1e-300, 1.0000001e-300]
 
 
 def same_float(a, b):
